@@ -1,0 +1,33 @@
+//go:build verif
+
+package cmd
+
+import (
+	"bytes"
+	"io"
+	"net/http"
+	"os"
+	"path/filepath"
+)
+
+// With -tags verif and VERIF_HTTP_ROOT set, every HTTP request of this process
+// (plugin repository, manifest and archive downloads) is served from files
+// under that directory instead of the network: http://<host>/<path> is
+// <root>/<path>. Used by the process-tier simulator in /verif, which has no network.
+type verifFileTransport struct{ root string }
+
+func (t verifFileTransport) RoundTrip(req *http.Request) (*http.Response, error) {
+	data, err := os.ReadFile(filepath.Join(t.root, filepath.FromSlash(req.URL.Path)))
+	if err != nil {
+		return &http.Response{StatusCode: 404, Status: "404 Not Found", Proto: "HTTP/1.1", ProtoMajor: 1, ProtoMinor: 1,
+			Header: http.Header{}, Body: io.NopCloser(bytes.NewReader(nil)), Request: req}, nil
+	}
+	return &http.Response{StatusCode: 200, Status: "200 OK", Proto: "HTTP/1.1", ProtoMajor: 1, ProtoMinor: 1,
+		Header: http.Header{}, Body: io.NopCloser(bytes.NewReader(data)), ContentLength: int64(len(data)), Request: req}, nil
+}
+
+func init() {
+	if root := os.Getenv("VERIF_HTTP_ROOT"); root != "" {
+		http.DefaultTransport = verifFileTransport{root: root}
+	}
+}
